@@ -19,3 +19,29 @@ Theorem C17_convert_writes_listing :
                 else write_file p (map (fmt conv full) ((optv g ++ ls ++ fl) ++ items)) w).
 Proof. exact convert_file. Qed.
 Print Assumptions C17_convert_writes_listing.
+
+From GV Require Import Proofs.CliThm.
+
+(* The command-line contract itself, for every argument list  -i x0 x1 .. xn -o out  (n >= 0), every file system:
+   each argument that names an existing file is expanded in place to its stripped lines, every other argument is a
+   glycan; the -o file gets exactly one line 'input,SMILES' per glycan in order of appearance; an entry whose
+   conversion fails gets an empty SMILES (fmt uses smiles_of, which is "" when conv raises) and the run goes on.
+   The three branches of main() (single file, single literal, list) are all covered by the one statement. *)
+Theorem C17_main_spec :
+  forall (conv : value -> value -> res string), (forall g f, conv g f <> inr ExExit) ->
+  forall fuel x0 xs out w,
+    Forall notflag (x0 :: xs) -> notflag out ->
+    file_lines w out = None ->
+    existsb (String.eqb out) (w_parent_ok w) = true ->
+    call conv program (70 + fuel) "main" [VList (VStr "-i" :: map VStr (x0 :: xs) ++ [VStr "-o"; VStr out])] [] w =
+    (inl VNone, listing conv w out (x0 :: xs)).
+Proof. exact main_spec. Qed.
+Print Assumptions C17_main_spec.
+
+(* non-vacuity: a concrete run of the regenerated program on a mixed argument list, inside Coq *)
+Example C17_example :
+  let conv := fun g _ => match g with VStr "Glc" => inl "OC1" | VStr "Man" => inl "OC2" | _ => inr ExParse end in
+  let w := mkWorld false [] false [] [("a.txt", [" Glc "; ""; "Glc,Man"])] ["out.txt"] [] in
+  w_files (snd (call conv program 80 "main" [VList [VStr "-i"; VStr "Man"; VStr "a.txt"; VStr "zzz"; VStr "-o"; VStr "out.txt"]] [] w))
+  = [("a.txt", [" Glc "; ""; "Glc,Man"]); ("out.txt", ["Man,OC2"; "Glc,OC1"; ","; "Glc,Man,"; "zzz,"])].
+Proof. vm_compute. reflexivity. Qed.
